@@ -3,7 +3,7 @@ import os, sys
 sys.path.insert(0, os.path.join(os.path.dirname(os.path.abspath(__file__)), '..', 'lib'))
 import vcommon as V, e2e
 
-PROPS = ['props/C05.v', 'props/Pipeline.v']
+PROPS = ['props/C05.v', 'props/Pipeline.v', 'props/C05_src.v']
 ASSUMPTIONS = e2e.ASSUMPTIONS
 EXPLANATION = ("Theorems: reduce_step accepts iff all counted links agree on materials and products (finite-map equality), independent of which link is first (all permutations); the step rules are evaluated only on links of the counted map; the summary link has the requested name, first-step materials and last-step products. Correspondence: real chains with two or three counted links per step differing in one path/digest/algorithm, plus uncounted junk links.")
 
